@@ -11,6 +11,7 @@ import Driver.Util
     udec <use2> <hex>  UpdWire.parse + ErrH.decode (UPDATE body, error class, kept attribute types; C06's model)
     open <hex>    PTot.parseOpen  (ParseBGPMessage of an OPEN)                          → O … | reject | panic
     cap <hex>     PTot.decCap     (DecodeCapability)                                    → C … | reject | panic
+    recvs <k> <open body>*k <hex19>  PTot.recvBodyLenSess: k sessions established in order on one fsm, then the header  → read <n> | reject
     recv <ext> <hex19>  PTot.recvBodyLen (fsm.go recvMessageWithError after the header)        → read <n> | reject
 -/
 namespace DriverC05
@@ -161,6 +162,22 @@ def step (s : St) (ts : List String) : St × List String :=
       match PTot.recvBodyLen (b! e) b with
       | none => (s, ["reject"])
       | some n => (s, [s!"read {n}"])
+  | "recvs" :: n :: rest =>
+    -- recvs <k> <open body 1> … <open body k> <hdr19>: k sessions established in this order on one fsm
+    let k := nat! n
+    let bodies := rest.take k
+    match rest.drop k with
+    | [h] =>
+      match unhex h, bodies.mapM (fun b => (unhex b).bind fun bs => (PTot.decOpen bs).toOption) with
+      | some hb, some (opens : List PTot.Open) =>
+        match opens.reverse with
+        | cur :: histRev =>
+          match PTot.recvBodyLenSess false histRev.reverse cur hb with
+          | none => (s, ["reject"])
+          | some m => (s, [s!"read {m}"])
+        | [] => (s, ["bad-op"])
+      | _, _ => (s, ["bad-open"])
+    | _ => (s, ["bad-op"])
   | [] => (s, [])
   | _ => (s, ["bad-op"])
 
